@@ -265,6 +265,8 @@ func (sc c09Scenario) features(req int) string {
 		f = append(f, "the edit was discarded by closing the file")
 	case "includes-by-edit":
 		f = append(f, "the root's include lines arrived with an edit")
+	case "saved":
+		f = append(f, "the edit was saved and the file closed")
 	}
 	return strings.Join(f, ", ")
 }
@@ -362,6 +364,7 @@ func c09Run(c *core.Ctx, dir string, sc c09Scenario, only *c09Case) {
 		wasOpen := open[req]
 		open[req] = true // the requesting document is open (with its editor text, = disk unless edited)
 		kept := false
+		var savedDisk *gmodel.Rendered
 		savedEditor, savedOpen := editor[max(sc.EditFile, 0)], open[max(sc.EditFile, 0)]
 		if sc.History == "discard" && sc.EditFile >= 0 && sc.EditFile != req {
 			ef := sc.EditFile
@@ -373,6 +376,20 @@ func c09Run(c *core.Ctx, dir string, sc c09Scenario, only *c09Case) {
 			}
 			s.DidClose(uriOf(ef))
 			editor[ef], open[ef] = disk[ef], false
+			kept = true
+		}
+		if sc.History == "saved" && sc.EditFile >= 0 && sc.EditFile != req {
+			// the edited file was opened with its saved text, changed, saved (file
+			// written, didSave) and closed; the requester stays open meanwhile
+			ef := sc.EditFile
+			s.DidOpen(uriOf(req), current(req).Text)
+			s.DidOpen(uriOf(ef), disk[ef].Text)
+			s.DidChangeFull(uriOf(ef), editor[ef].Text, 2)
+			_ = os.WriteFile(filepath.Join(dir, c09Files[ef]), []byte(editor[ef].Text), 0o644)
+			s.DidSave(uriOf(ef))
+			s.DidClose(uriOf(ef))
+			savedDisk = disk[ef]
+			disk[ef], open[ef] = editor[ef], false
 			kept = true
 		}
 		for f := 0; f < sc.N; f++ {
@@ -507,6 +524,10 @@ func c09Run(c *core.Ctx, dir string, sc c09Scenario, only *c09Case) {
 		open[req] = wasOpen
 		if sc.EditFile >= 0 {
 			editor[sc.EditFile], open[sc.EditFile] = savedEditor, savedOpen
+			if savedDisk != nil {
+				disk[sc.EditFile] = savedDisk
+				_ = os.WriteFile(filepath.Join(dir, c09Files[sc.EditFile]), []byte(savedDisk.Text), 0o644)
+			}
 		}
 	}
 }
@@ -661,6 +682,8 @@ func checkC09(c *core.Ctx) {
 												c09Run(c, dir, h, nil)
 												if ef >= 0 {
 													h.History = "discard"
+													c09Run(c, dir, h, nil)
+													h.History = "saved"
 													c09Run(c, dir, h, nil)
 												}
 												if root && ef != 0 {
